@@ -16,14 +16,14 @@ let key s = bytes_of_hex s
 
 let parse_layer bottom tok =
   match String.split_on_char ':' tok with
-  | ["M"] -> WBase [] | ["Z"] -> WNull
+  | ["M"] -> WBase [] | ["m"] -> WMem ([], false) | ["Z"] -> WNull
   | ["B"] -> WBatched ([], bottom)
   | ["S"; p] -> WSkip (key p, bottom)
   | ["N"] -> WNoKey bottom
   | ["R"] -> WRO bottom
   | ["E"; cs] -> WSkipErr (List.filter_map (fun c -> if c = "" then None else Some (n_of_tok c)) (String.split_on_char '.' cs), bottom)
   | ["F"; n] -> WFall (z_of_tok n, bottom)
-  | ["C"] -> WCached bottom
+  | ["C"] -> WCached (n_of_tok "1", true, bottom)
   | ["X"; p; c] -> WErr (key p, n_of_tok c, bottom)
   | _ -> failwith ("bad layer " ^ tok)
 
@@ -49,6 +49,8 @@ let eval inp obs =
     | ["SN"; i] -> XSnap (nat i) | ["SG"; i; k] -> XSGet (nat i, key k) | ["SH"; i; k] -> XSHas (nat i, key k)
     | ["SI"; i; p; s] -> XSIter (nat i, key p, key s)
     | ["FL"; d] -> XFlush (nat d) | ["MF"; d] -> XMayFlush (nat d) | ["SC"; d; n] -> XSetCount (nat d, z_of_tok n)
+    | ["LW"; d] -> XLWrite (nat d) | ["LR"; d] -> XLReset (nat d) | ["LP"; d] -> XLReplay (nat d)
+    | ["GC"; d] -> XGetCount (nat d) | ["RO"; d] -> XReopen (nat d)
     | ["CL"] -> XClose | ["DR"] -> XDrop
     | _ -> failwith "bad op") ops in
   let mobs = xrun scale (x_init stack) xops in
@@ -57,6 +59,9 @@ let eval inp obs =
     | BVal (ROk None) -> "nil" | BVal (ROk (Some v)) -> "v:" ^ h v | BVal r -> res_tok r
     | BBool (ROk b) -> if b then "1" else "0" | BBool r -> res_tok r
     | BList l -> items l
+    | BOps l -> "{" ^ String.concat "," (List.map (fun o -> match o with
+        | WPut (k, v) -> h k ^ "=" ^ h v | WDel k -> h k ^ "=~") l) ^ "}"
+    | BCount n -> "n:" ^ tok_of_z n
     | BEnd (r, m) -> "end:" ^ res_tok r ^ ":" ^ dump m
     | BNone -> "-") mobs in
   (* ---- the stated deviations on the implementation's observation *)
@@ -75,9 +80,90 @@ let eval inp obs =
     && List.exists (fun l -> l = ["M"]) lay
     && List.for_all (fun o -> match o with ("BW" | "DR") :: _ -> false | _ -> true) ops in
   let top_nokey = (match lay with ["N"] :: _ -> true | _ -> false) in
+  (* ---- the theorems' domain: batched / skipkeys / nokeyiserr / cached / readonly layers over the memorydb
+     double, used from the top, no batch writes, no layer Write/Reset, no Drop, no re-open.  There every
+     live read must be the KvSpec read of the map of the first j accepted writes minus the hidden prefixes,
+     for some j between the last certain flush and now, j never decreasing (C23x_stack_reads +
+     C23x_batched_stack_refines + C23x_flush_shows_writes); a snapshot shows such a map unfiltered. *)
+  let in_domain =
+    List.for_all (fun l -> match l with ["B"] | ["S"; _] | ["N"] | ["C"] | ["R"] | ["M"] -> true | _ -> false) lay
+    && List.exists (fun l -> l = ["M"]) lay
+    && List.for_all (fun o -> match o with ("BW" | "DR" | "LW" | "LR" | "RO") :: _ -> false | _ -> true) ops in
+  let rec index_of p i = function [] -> -1 | x :: t -> if p x then i else index_of p (i + 1) t in
+  let top_b = index_of (fun l -> l = ["B"]) 0 lay in
+  let buffered = top_b >= 0 && ro = None in
+  let accepted = ref [] (* reversed *) and n_acc = ref 0 and lo = ref 0 in
+  let prefix_map j =
+    let rec take n l = if n <= 0 then [] else match l with [] -> [] | x :: t -> x :: take (n - 1) t in
+    kv_write [] (take j (List.rev !accepted)) in
+  let is_hidden kb = List.exists (fun p -> is_prefix p (hx (h kb))) hidden in
+  let absent_live kb =
+    let rec go = function
+      | [] -> "nil"
+      | ["S"; p] :: t -> if is_prefix (hx p) (hx (h kb)) then "nil" else go t
+      | ["N"] :: _ -> "e2"
+      | _ :: t -> go t in go lay in
+  let absent_snap = if List.exists (fun l -> l = ["N"]) lay then "e2" else "nil" in
+  let expect_read live m o =
+    match o with
+    | ["G"; k] | ["SG"; _; k] ->
+      let kb = key k in
+      (match kv_get m kb with
+       | Some v when not (live && is_hidden kb) -> "v:" ^ h v
+       | _ -> if live then absent_live kb else absent_snap)
+    | ["H"; k] | ["SH"; _; k] ->
+      let kb = key k in if kv_has m kb && not (live && is_hidden kb) then "1" else "0"
+    | ["I"; p; st] | ["SI"; _; p; st] ->
+      items (List.filter (fun (kb, _) -> not (live && is_hidden kb)) (kv_iterate m (key p) (key st)))
+    | _ -> "?" in
+  let rec range a b = if a > b then [] else a :: range (a + 1) b in
+  let snap_cands : (string, int list) Hashtbl.t = Hashtbl.create 4 in
+  (* cachedproducer on top of the stack: Close is reference counted — with other handles open it closes
+     nothing (the store keeps working), the last one really closes, one more is refused with an error *)
+  let cached_top = (match lay with ["C"] :: rest ->
+      List.for_all (fun l -> match l with ["F"; _] | ["X"; _; _] | ["E"; _] -> false | _ -> true) rest | _ -> false) in
+  let refs = ref 1 and must_work = ref false in
   let logical = ref [] in
   let ended = ref false in
   (try List.iter2 (fun o t ->
+    if cached_top && !ok then begin
+      (match o with
+       | ["RO"; "0"] -> incr refs
+       | ["CL"] ->
+         if !refs = 0 then (if not (String.length t >= 6 && String.sub t 0 6 = "end:e5") then
+                              fail ("Close with no open handle left answered " ^ t ^ ", expected the error of cachedproducer"))
+         else if !refs > 1 then begin
+           if not (String.length t >= 6 && String.sub t 0 6 = "end:ok") then fail ("Close of one of several handles answered " ^ t);
+           decr refs; must_work := true
+         end else (decr refs; must_work := false)
+       | ["DR"] -> must_work := false
+       | ("G" | "H") :: _ -> if !must_work && t = "e6" then fail "the store is closed although another handle of the cached producer is still open"
+       | ("P" | "D") :: _ -> if !must_work && (t = "panic" || t = "e6") then fail "the store is closed although another handle of the cached producer is still open"
+       | _ -> ())
+    end;
+    if in_domain && !ok then begin
+      (match o with
+       | ("G" | "H" | "I") :: _ ->
+         let cands = List.filter (fun j -> expect_read true (prefix_map j) o = t) (range (if buffered then !lo else !n_acc) !n_acc) in
+         (match cands with
+          | [] -> fail (Printf.sprintf "%s answered %s; no flushed prefix of the accepted writes (between %d and %d of them) gives that: with all of them it would be %s"
+                          (String.concat " " o) t !lo !n_acc (expect_read true (prefix_map !n_acc) o))
+          | j :: _ -> lo := max !lo j)
+       | ("P" | "D") :: _ when t = "ok" ->
+         accepted := (match o with ["P"; k; v] -> WPut (key k, key v) | ["D"; k] -> WDel (key k) | _ -> failwith "op") :: !accepted;
+         incr n_acc
+       | ["FL"; d] when int_of_string d = top_b -> lo := !n_acc
+       | ["CL"] when String.length t > 6 && String.sub t 0 7 = "end:ok:" -> lo := !n_acc
+       | ["SN"; i] when t = "ok" -> Hashtbl.replace snap_cands i (range (if buffered then !lo else !n_acc) !n_acc)
+       | ("SG" | "SH" | "SI") :: i :: _ when t <> "-" ->
+         (match Hashtbl.find_opt snap_cands i with
+          | Some cs ->
+            let cs' = List.filter (fun j -> expect_read false (prefix_map j) o = t) cs in
+            if cs' = [] then fail (Printf.sprintf "%s answered %s: not a read of any map the base can have held when the snapshot was taken" (String.concat " " o) t)
+            else Hashtbl.replace snap_cands i cs'
+          | None -> ())
+       | _ -> ())
+    end;
     if not !ended then begin
     (match o with
      | ["G"; k] ->
